@@ -506,6 +506,12 @@ pub fn replay(ctx: &mut Ctx, case: &Value) {
         ctx.replay_one(&p, |p, log| prop_project(p, &c, log), case.clone());
         return;
     }
-    let c: Case = serde_json::from_value(json!({"shape": case["shape"], "entropy": case["entropy"], "trivia": case["trivia"], "mutations": case["mutations"]})).unwrap();
+    let c: Case = match serde_json::from_value(json!({"shape": case["shape"], "entropy": case["entropy"], "trivia": case["trivia"], "mutations": case["mutations"]})) {
+        Ok(c) => c,
+        Err(e) => {
+            ctx.health(false, format!("replay case does not deserialize: {}", e));
+            return;
+        }
+    };
     ctx.replay_one(&c, prop, case.clone());
 }
